@@ -173,6 +173,20 @@ impl ExprParams {
 	pub fn binds_len(&self) -> usize {
 		self.binds_len
 	}
+	/// Name declared by more than one parameter, if any.
+	///
+	/// `function(a, a) a` is a static error; parsers should check this before calling [`Self::new`]:
+	/// binding arguments by name relies on the names being pairwise different
+	pub fn duplicate_name(exprs: &[ExprParam]) -> Option<IStr> {
+		for (i, param) in exprs.iter().enumerate() {
+			if let ParamName::Named(name) = param.destruct.name() {
+				if exprs[..i].iter().any(|p| p.destruct.name() == name) {
+					return Some(name);
+				}
+			}
+		}
+		None
+	}
 	pub fn new(exprs: Vec<ExprParam>) -> Self {
 		Self {
 			signature: FunctionSignature::new(
